@@ -207,7 +207,7 @@ func modelsC11(tier string) ([]*PktModel, []int) {
 	var depth []int
 	d := 6
 	if tier == "thorough" {
-		d = 10
+		d = 20
 	}
 	for _, n := range names {
 		rules := ruleSets[n]
